@@ -41,8 +41,9 @@ ALLOWED = [
     ('src/generator/emission.rs', 'hash-order-iteration', r'self\s*\.state\s*\.memo\s*\.keys\(\)|^\s*\.keys\(\)',
      'memo key enumeration; the three sites are under contract: the vector is sorted before an index is chosen '
      '(obligations emit_and_process__Get/BinGet/LongBinGet, clause keys canonical)'),
-    ('src/generator/emission.rs', 'global-mutable-state', r'OnceLock',
-     'STDLIB_MODULES caches the lines of a compile-time constant (include_str!); its value does not depend on the caller'),
+    ('src/generator/emission.rs', 'global-mutable-state', r'^\s*use std::sync::OnceLock;|static STDLIB_MODULES: OnceLock<Vec<String>> = OnceLock::new\(\);',
+     'STDLIB_MODULES caches the lines of a compile-time constant (include_str!); its value does not depend on the caller '
+     '(only this one static is whitelisted: a cache whose content depends on a generator would make the output depend on process history)'),
 ]
 
 # payload iteration inside impl Hash for StackObject (src/stack.rs) walks HashMap/HashSet contents with
@@ -140,7 +141,7 @@ def _scan():
         masked = rsx.mask(src)
         for no, (ln, raw) in enumerate(zip(masked.split('\n'), src.split('\n')), 1):
             if re.search(r'\bstatic\s+\w+\s*:', ln) and not re.search(r'\bstatic\s+mut\b', ln):
-                is_const_like = bool(re.search(r'phf::Map|&\[u8\]|&str|OnceLock', ln))
+                is_const_like = bool(re.search(r'phf::Map|:\s*&\[u8\]|:\s*&(\'static\s+)?str\b|static STDLIB_MODULES: OnceLock<Vec<String>>', ln))
                 findings.append(dict(file=rel, line=no, rule='static-item', text=raw.strip()[:160], allowed=is_const_like,
                                      reason='immutable static initialised from compile-time data' if is_const_like else ''))
     return findings
